@@ -37,6 +37,9 @@ def logical_ops():
     # the body of the mode context raises after its move; the caller catches the error and carries on
     ops["ctx_abs_move_raise"] = mv("ctx_abs_move_raise", (2, -1, 0))
     ops["ctx_rel_move_raise"] = mv("ctx_rel_move_raise", (-1, 2, 0.5))
+    # the body switches the distance mode itself; leaving the block brings back the mode that was active on entry
+    ops["ctx_abs_switch"] = mv("ctx_abs_switch", (2, 4, -1))
+    ops["ctx_rel_switch"] = mv("ctx_rel_switch", (-4, 2, 1))
     ops["arc"] = shape(lambda p, d: c10.arc_case(p, d, 4.0, 90, None, 0))
     ops["arc-z"] = shape(lambda p, d: c10.arc_case(p, d, 3.0, 270, 2.0, 135))
     ops["arc_radius"] = shape(lambda p, d: c10.arc_radius_case(p, d, 5.0, 0.6, 30))
@@ -83,6 +86,20 @@ def apply(run, kind, largs, start):
                     raise KeyError("body failed")
             except KeyError:
                 pass
+        elif kind == "ctx_abs_switch":
+            t = largs["target"]
+            mid = [(t[i] + start[i]) / 2 for i in range(3)]
+            with g.absolute_mode():
+                g.move(mid)
+                g.set_distance_mode("relative")
+                g.move([t[i] - mid[i] for i in range(3)])
+        elif kind == "ctx_rel_switch":
+            t = largs["target"]
+            mid = [(t[i] + start[i]) / 2 for i in range(3)]
+            with g.relative_mode():
+                g.move([mid[i] - start[i] for i in range(3)])
+                g.set_distance_mode("absolute")
+                g.move(t)
         elif kind == "ctx_rel_move":
             t = largs["target"]
             with g.relative_mode():
